@@ -10,6 +10,7 @@ mod conc;
 mod heap;
 mod lang;
 mod marshal;
+mod sched;
 mod editor;
 mod frontend;
 mod par;
@@ -106,6 +107,7 @@ fn main() {
         "heap" => heap::cmd(rest),
         "lang" => lang::cmd(rest),
         "marshal" => marshal::cmd(rest),
+        "sched" => sched::cmd(rest),
         "par" => par::cmd(rest),
         "types" => types::cmd(rest),
         "parse" => { let src = std::fs::read_to_string(&rest[0]).unwrap(); println!("{:?}", parse::dump(&src)); }
